@@ -586,7 +586,7 @@ def run(tier, seed, started):
     if c.get('populations', 0) < 1000 or c.get('peers_built', 0) < 10000 or \
             c.get('max:onions_advertised', 0) < 45 or not c.get('moved_peer_advertised') or \
             c.get('max:history_peers_advertised', 0) < 5:
-        raise common.Broken(f'vacuous C19 run: {c}')
+        common.vacuous(PROP, res, f'vacuous C19 run: {c}')
     coverage = {
         'evaluations': c['subscribe_calls'] + c['feature_dicts'],
         'histories': c['histories'], 'verifications_through_real_code': c['verifications'],
